@@ -420,7 +420,7 @@ func (g *Gen) genAtomic() Stmt {
 		ptr := &AddrOf{X: q.e, Ty: g.U.Ptr(q.root.Space, q.t, "")}
 		names := []string{"atomicStore", "atomicAdd", "atomicSub", "atomicMax", "atomicMin", "atomicAnd", "atomicOr", "atomicXor", "atomicExchange", "atomicLoad", "atomicCompareExchangeWeak"}
 		name := names[g.R.Intn(len(names))]
-		if !g.on("fn."+name) {
+		if !g.on("fn." + name) {
 			name = "atomicAdd"
 		}
 		if !g.on("atomic.cmpxchg") && name == "atomicCompareExchangeWeak" {
